@@ -475,6 +475,7 @@ def translate_supervisor(repo):
 def translate_postloop(repo):
     """threading Scheduler.__exec_jobs: hand-over by template, post-run loop translated"""
     import py2v_post as P
+    check_job_wrappers(repo, ["_calc_next_exec"])
     path = os.path.join(repo, "scheduler/threading/scheduler.py")
     CURFILE[0] = path
     return HEADER % path + "From Gen Require Import GenOccur GenTimer GenJobState.\n\n" + P.translate(ast.parse(open(path).read()))
@@ -520,6 +521,29 @@ def translate_once(repo):
     return HEADER % dpath + "\n".join(out)
 
 
+JOB_WRAPPERS = {
+    "timedelta": ("dt_stamp", "with self.__lock:\n    return super().timedelta(dt_stamp)\n"),
+    "datetime": (None, "with self.__lock:\n    return super().datetime\n"),
+    "_calc_next_exec": ("ref_dt", "with self.__lock:\n    super()._calc_next_exec(ref_dt)\n"),
+}
+
+
+def check_job_wrappers(repo, names):
+    """threading Job overrides timedelta / datetime / _calc_next_exec only to take the job's own lock around the
+    BaseJob method: recognised by template (a missing or different override leaves the subset)"""
+    import py2v_methods as M
+    path = os.path.join(repo, "scheduler/threading/job.py")
+    CURFILE[0] = path
+    tree = ast.parse(open(path).read())
+    for name in names:
+        fd = M.find_method(tree, "Job", name)
+        arg, text = JOB_WRAPPERS[name]
+        body = [b for b in fd.body if not (isinstance(b, ast.Expr) and isinstance(b.value, ast.Constant) and isinstance(b.value.value, str))]
+        if [a.arg for a in fd.args.args[1:]] != ([arg] if arg else []) or \
+                ast.dump(ast.Module(body=body, type_ignores=[])) != ast.dump(ast.parse(text)):
+            fail(fd, "threading Job.%s must take the job lock around the BaseJob method" % name)
+
+
 def translate_sched(repo):
     """threading Scheduler.exec_jobs up to the hand-over to the workers (selection)"""
     import py2v_methods as M
@@ -527,6 +551,8 @@ def translate_sched(repo):
     path = os.path.join(repo, "scheduler/threading/scheduler.py")
     CURFILE[0] = path
     tree = ast.parse(open(path).read())
+    check_job_wrappers(repo, ["timedelta", "datetime"])
+    CURFILE[0] = path
     fd = M.find_method(tree, "Scheduler", "exec_jobs")
     fields = {"__max_exec": ("ps_max_exec", "int", None), "__tzinfo": ("ps_tzinfo", "tzinfo", None),
               "__jobs": ("ps_jobs", "set:jobobj", None)}
